@@ -52,7 +52,7 @@ def find_rrt_cases(script, scope, cases, text):
                 have = t.func(*[vals[r] for r in t.regrefs])
             except ZeroDivisionError:
                 continue
-            if not canon.close(have, want, 1e-9):
+            if not canon.close(have, want, 1e-9, 1e-12):
                 return "transform of %s gives %r at %s, the written formula gives %r" % (
                     gen.r_expr(e, gen.Layout()), have, vals, want)
     # arguments without registers stay plain values
